@@ -265,6 +265,13 @@ def rule_deleg(ctx, rep):
             leaves, ptr_eq, _seen = L.reach(key)
             fam = [l for l in leaves if l["trait"] in TRAITS]
             bad_ptr = [l for l in fam if pointer_like(F, l["self"])]
+            if bad_ptr and hn and tr == "core::cmp::PartialEq" and m in ("eq", "ne"):
+                # the licensed same-allocation test: `self.p == other.p` as the condition of a branch of this very function
+                lic = set()
+                for _bi, _tt, _c, t_ in licence_tests(F, b)[0]:
+                    if t_ is not None:
+                        lic.add(F.loc(b, t_["span"]))
+                bad_ptr = [l for l in bad_ptr if not (l["body"] == key and l["loc"] in lic)]
             same = [l for l in fam if l["trait"] == tr and payload_like(F, l["self"])]
             if bad_ptr:
                 l = bad_ptr[0]
@@ -406,6 +413,17 @@ def rule_deleg(ctx, rep):
                     rep.ok("R-LICENCE", b["key"], cfg=tag)
                 else:
                     rep.bad("R-LICENCE", b["key"], why, F.loc(b), tag)
+            # every handle's own eq/ne: "equal" (eq: true, ne: false) is never answered without the values except under the test
+            for b in F.body_list:
+                imp = b.get("impl") or {}
+                if b.get("name") != m or imp.get("trait") != "core::cmp::PartialEq" or not F.handle_name(imp.get("self_ty", -1)):
+                    continue
+                why = _licence_consts(F, b, const)
+                ik = b["key"] + "/constant-answers"
+                if why is None:
+                    rep.ok("R-LICENCE", ik, cfg=tag)
+                else:
+                    rep.bad("R-LICENCE", ik, why, F.loc(b), tag)
     # the same-allocation test itself: nothing but the equality of the two handles' stored pointers (no further disjunct such as
     # "or the payload is zero-sized", which would extend the licence to handles of different allocations)
     for tag, F, E in ctx.each():
@@ -577,6 +595,94 @@ def _ref_rule(F, b, rep, tag):
         rep.ok("R-DELEG", b["key"], cfg=tag)
     else:
         rep.bad("R-DELEG", b["key"], "Borrow/AsRef does not return the handle's Deref target (the payload), so a map keyed by the handle could not be probed by value", F.loc(b), tag)
+
+
+def _whole_word_of(F, B, op):
+    """If `op` is (a reference to / a copy / a plain cast of) a whole pointer-typed field of the handle passed as argument k
+    - `self.p`, `&other.ptr`, `self.p.as_ptr()` - with no arithmetic on the way, return k."""
+    from .. import symx
+
+    e = symx.expr(F, B, op)
+    for _ in range(12):
+        if not isinstance(e, tuple) or not e:
+            return None
+        if e[0] == "bb":
+            e = e[-1]
+        elif e[0] == "addr":
+            e = e[1]
+        elif e[0] == "cast":
+            e = e[2]
+        elif e[0] == "call" and e[1] in symx.IDENTITY_CALLS and e[3]:
+            e = e[3][0]
+        else:
+            break
+    if not (isinstance(e, tuple) and e and e[0] == "proj" and e[1][0] == "arg"):
+        return None
+    names = [n for n in e[2] if n != "*"]
+    if len(names) != 1:
+        return None
+    return e[1][1]
+
+
+def licence_tests(F, b):
+    """The same-allocation tests of an `eq`/`ne` body: switches on `ptr_eq(a, b)` or on the equality of the two handles' whole
+    stored pointers (`self.p == other.p`). -> [(bb, term, cond, call-or-None)], and the blocks reachable only through a true edge."""
+    B = cfg.Body(b)
+    tests = []
+    for bi, bl in enumerate(b["blocks"]):
+        tt = bl["term"]
+        if tt["k"] != "switch":
+            continue
+        c = B.condition(tt["discr"])
+        if not c:
+            continue
+        if "call" in c:
+            t = c["call"]
+            callee = atomics.callee_of(t)
+            if (F.body(callee) or {}).get("name") == "ptr_eq":
+                tests.append((bi, tt, c, t))
+                continue
+            if len(t["args"]) == 2 and (callee in ("core::ptr::addr_eq", "core::ptr::eq") or (t.get("callee_trait") == "core::cmp::PartialEq" and t.get("callee_name") == "eq" and t.get("callee_self") is not None and pointer_like(F, t["callee_self"]))):
+                ks = [_whole_word_of(F, B, a) for a in t["args"]]
+                if sorted(k for k in ks if k) == [1, 2]:
+                    tests.append((bi, tt, c, t))
+        elif c.get("op") in ("Eq", "Ne") and "a" in c:
+            ks = [_whole_word_of(F, B, c["a"]), _whole_word_of(F, B, c["b"])]
+            if sorted(k for k in ks if k) == [1, 2]:
+                tests.append((bi, tt, c, None))
+    region = set()
+    for bi, tt, c, _t in tests:
+        for tgt, tv in B.switch_truth(tt).items():
+            same = (tv != c["neg"]) == (c.get("op") != "Ne")
+            if not same:
+                continue
+            # blocks reachable from the entry only through this edge
+            seen = set()
+            todo = [0]
+            while todo:
+                x = todo.pop()
+                if x in seen:
+                    continue
+                seen.add(x)
+                for sx in B._succ[x]:
+                    if (x, sx) != (bi, tgt):
+                        todo.append(sx)
+            region |= set(range(len(b["blocks"]))) - seen
+    return tests, region
+
+
+def _licence_consts(F, b, const_on_same):
+    """Every constant answer equal to the same-allocation answer (`true` in eq, `false` in ne) is given inside the licensed
+    region: anywhere else it says "equal" without having asked the values (e.g. after comparing addresses stripped of a tag)."""
+    B = cfg.Body(b)
+    tests, region = licence_tests(F, b)
+    for bi, bl in enumerate(b["blocks"]):
+        for s in bl["stmts"]:
+            if s["k"] == "assign" and s["lhs"]["l"] == 0 and not s["lhs"]["p"] and s["rv"]["k"] == "use":
+                v = B.const_value(s["rv"]["op"])
+                if v is not None and int(v) == const_on_same and bi not in region:
+                    return "the constant `%s` is answered (line %s) outside the same-allocation test of the two handles' whole stored pointers: the values were not asked" % ("true" if const_on_same else "false", s["span"]["line"])
+    return None
 
 
 def _licence_shape(F, b, const_on_same):
